@@ -1,4 +1,5 @@
-import NbdimeProofs.Lemmas.SeqBridge
+import NbdimeProofs.Lemmas.LcsMatching
+import NbdimeProofs.Lemmas.JsonEq
 /-
   C02 — generic JSON diff/patch round trip. Property theorems only (helper lemmas live in Lemmas/).
   Status: sequence level proved for every monotone matching (whatever the LCS/snake heuristics
@@ -28,4 +29,39 @@ theorem C02_seq_roundtrip_partial (a b : List J) (ps : List (Nat × Nat))
 example : Matching [J.int 1, J.int 2, J.int 3] [J.int 0, J.int 1, J.int 3] [(0, 1), (2, 2)] 0 0 := by
   simp [Matching]
 
-end Nbdime
+/-- The model's executable shallow list differ (`diff_sequence_bruteforce`: comparison grid, LLCS
+    table, backtracking, `diff_from_lcs` through the sequence builder) followed by the model's
+    `patch_list` rebuilds the target exactly, for every comparison predicate that implies equality —
+    whichever common subsequence the table picks. -/
+theorem C02_list_roundtrip (cmp : J → J → Except Err Bool) (hstrict : ∀ x y, cmp x y = .ok true → x = y)
+    (A B : List J) (d : List Op) (h : diffSequence cmp A B = .ok d) : patchList A d 0 = .ok B :=
+  diffSequence_roundtrip cmp hstrict A B d h
+
+/-- Instance: the type-aware equality (`1`, `1.0`, `true` distinct). -/
+theorem C02_list_roundtrip_strict (A B : List J) (d : List Op)
+    (h : diffSequence (fun x y => .ok (J.beq x y)) A B = .ok d) : patchList A d 0 = .ok B :=
+  C02_list_roundtrip _ (fun x y hxy => J.beq_eq x y (by simpa using hxy)) A B d h
+
+/-- Instance for the code as it is (Python `==`, finding F-eq): exact on lists whose items hold no
+    booleans and no floats; for other lists the statement is false (`C02_pyEq_refuted`). -/
+theorem C02_list_roundtrip_pyEq_partial (A B : List J) (d : List Op)
+    (hA : ∀ x ∈ A, x.intsOnly = true) (hB : ∀ y ∈ B, y.intsOnly = true)
+    (h : diffSequence (fun x y => if x.intsOnly && y.intsOnly then .ok (J.pyEq x y) else .ok (J.beq x y)) A B = .ok d) :
+    patchList A d 0 = .ok B := by
+  apply C02_list_roundtrip _ _ A B d h
+  intro x y hxy
+  by_cases hc : (x.intsOnly && y.intsOnly) = true
+  · simp only [hc, if_true, Except.ok.injEq] at hxy
+    simp only [Bool.and_eq_true] at hc
+    exact J.pyEq_eq x y hc.1 hc.2 hxy
+  · simp only [hc, Bool.false_eq_true, if_false, Except.ok.injEq] at hxy
+    exact J.beq_eq x y hxy
+
+/-- Python `==` identifies `1` and `true`: the shallow differ reports nothing and the round trip
+    fails (finding F-eq; replayed on the implementation by the check). -/
+theorem C02_pyEq_refuted :
+    diffSequence (fun x y => .ok (J.pyEq x y)) [J.int 1] [J.bool true] = .ok [] ∧
+    patchList [J.int 1] [] 0 ≠ .ok [J.bool true] := by
+  constructor
+  · rfl
+  · simp [patchList]
